@@ -243,7 +243,7 @@ func driver(args lib.Args, focus string) {
 		for p := 0; p < nafter; p++ {
 			// quick tier: half of the programs run after interpreters that declared types, the
 			// other half after interpreters that did not (alternating with the seed); thorough: both
-			both := args.Tier == "thorough" || args.Replay != "" || focus != "" || hasTag(progs[s], "generated-names") || hasTag(progs[s], "infix")
+			both := args.Tier == "thorough" || args.Replay != "" || focus != "" || hasTag(progs[s], "generated-names") || hasTag(progs[s], "infix") || hasTag(progs[s], "both-after")
 			if both || (s+int(args.Seed))%2 == 0 {
 				jobs = append(jobs, job{"after", s, p, 1, rng.U64()})
 			}
